@@ -158,8 +158,21 @@ def run(shard, rec):
     kind = shard['kind']
     rng = random.Random(f"c10/{shard['seed']}/{shard['name']}")
     if kind == 'handshake':
-        for (m, t) in CONFIGS:
-            w = sim.World(m, t, no_prss=not shard['prss'], seed=shard['seed'])
+        variants = [(m, t, None) for (m, t) in CONFIGS]
+        # the same handshakes after the threshold of existing runtimes was changed through the public setter (the layout of the
+        # key material depends on the threshold: nothing about it may be remembered from before the change)
+        variants += [(m, t, tp) for (m, t) in CONFIGS if 2 <= m <= 5 for tp in range(0, (m + 1) // 2) if 2 * tp < m and tp != t]
+        for (m, t, t_prev) in variants:
+            w = sim.World(m, t if t_prev is None else t_prev, no_prss=not shard['prss'], seed=shard['seed'])
+            if t_prev is not None:
+                for i in range(m):                       # handshakes at the earlier threshold (fills whatever caches there are)
+                    for j in range(i + 1, m):
+                        p_ = Pair(w, i, j)
+                        w.ctx[j].run(p_.server.data_received, bytes(p_.ct.data))
+                for i in range(m):
+                    w.ctx[i].run(setattr, w.rts[i], 'threshold', t)
+                w.t = t
+                rec.count('worlds_with_threshold_change')
             for i in range(m):
                 for j in range(i + 1, m):
                     probe = Pair(w, i, j)
@@ -175,8 +188,11 @@ def run(shard, rec):
                     total_tail = None
                     onecuts = [(a,) for a in range(1, n + 1)]
                     twocuts = [(a, b) for a in range(1, n + 1) for b in range(a + 1, n + 2)] if n <= 40 else []
+                    if t_prev is not None:
+                        twocuts = []
+                        onecuts = onecuts[::3]
                     for cuts in [()] + cutsets + onecuts + twocuts:
-                        case = [m, t, int(shard['prss']), i, j, list(cuts) if len(cuts) < 6 else 'dribble']
+                        case = [m, t, int(shard['prss']), i, j, list(cuts) if len(cuts) < 6 else 'dribble'] + ([t_prev] if t_prev is not None else [])
                         if not rec.wants(case):
                             continue
                         # (a) the handshake alone, nothing following it yet: the peer must already be identified
